@@ -127,34 +127,46 @@ def pad_path(a, M):
     return a
 
 
+AGGS = [None, None, None, "mean", "sum", "min", "max", "std", "var", "ptp"]
+
+
 def sup_eval(dentries, dobs, field, sumup):
-    """(got, expected, scale): the list call against explicit sums of single-source calls"""
-    f = magpy.getB if field == "B" else magpy.getH
+    """(got, expected, per-entry scales): the list call against explicit sums of single-source calls.
+    pixel aggregation (any numpy reducer, also the non-linear std / var / ptp / min / max) acts on the SUM,
+    so the single calls are made without it and the reducer is applied by the harness afterwards"""
+    agg = dobs.get("agg")
+    how = dobs.get("how", "top")
 
     def observers():
         if dobs["kind"] == "array":
             return np.array(dobs["points"], dtype=float)
         return [l2b.load_obj(d) for d in dobs["sensors"]]
     entries = [l2b.load_obj(d) for d in dentries]
-    got = f(entries, observers(), squeeze=False, sumup=sumup)
+    for i, j in dobs.get("dups", []):           # the same OBJECT several times in the list
+        entries[i] = entries[j]
+    got = l2b.call_field(entries, observers(), field, how, sumup=sumup, pixel_agg=agg)
     M = got.shape[1]
-    exp, scale = [], 0.0
+    exp, scales = [], []
     for d in dentries:
-        tot = 0.0
+        tot, sc = 0.0, 0.0
         for leaf in l2b.leaves_of(l2b.load_obj(d)):
-            one = pad_path(f(leaf, observers(), squeeze=False), M)[0]
-            scale = max(scale, float(np.abs(one).max()))
+            one = pad_path(l2b.field_fn(field)(leaf, observers(), squeeze=False), M)[0]
+            sc = max(sc, float(np.abs(one).max()) if np.all(np.isfinite(one)) else np.inf)
             tot = tot + one
+        if agg is not None:                    # (M, K, npix, 3) -> reduce the pixel axis
+            tot = getattr(np, agg)(tot, axis=2, keepdims=True)
         exp.append(tot)
+        scales.append(sc)
     exp = np.array(exp)
     if sumup:
         exp = exp.sum(axis=0, keepdims=True)
-    return got, exp, scale
+        scales = [max(scales)]
+    return got, exp, scales
 
 
 def sup_fails(dentries, dobs, field, sumup):
     try:
-        got, exp, scale = sup_eval(dentries, dobs, field, sumup)
+        got, exp, scales = sup_eval(dentries, dobs, field, sumup)
     except MagpylibBadUserInput:
         return None              # not a valid source list (e.g. a collection without sources)
     except Exception as e:   # pylint: disable=broad-except
@@ -163,18 +175,107 @@ def sup_fails(dentries, dobs, field, sumup):
         return "one-entry", f"output shape {got.shape}, expected {exp.shape} (one entry per element of the source list)"
     if not np.all(np.isfinite(exp)):
         return None
-    dev = float(np.abs(got - exp).max()) / scale if scale > 0 else float(np.abs(got - exp).max())
+    # every entry on ITS OWN scale (the largest single-source field inside that entry); var is quadratic
+    devs = []
+    for l, sc in enumerate(scales):
+        sc = sc * sc if dobs.get("agg") == "var" else sc
+        d = float(np.abs(got[l] - exp[l]).max())
+        devs.append(d / sc if sc > 0 else d)
+    dev = max(devs)
     if dev > SUP_TOL:
         try:
-            nf = l2b.noise_floor(dentries, dobs, field)
+            nf = l2b.noise_floor(dentries, dict(dobs, kind="array" if dobs["kind"] == "array" else "sensors"), field)
         except Exception:   # pylint: disable=broad-except
             nf = 0.0
         if dev <= NOISE_FACTOR * nf:
             return None
         return ("sumup" if sumup else "collection-sum",
-                f"{field} of the source list deviates by {dev:.2e} (relative to the largest single-source field) from the "
-                "explicit sum of single-source calls")
+                f"{field} of entry {int(np.argmax(devs))} of the source list deviates by {dev:.2e} (relative to the largest "
+                "single-source field inside that entry) from the explicit sum of single-source calls")
     return None
+
+
+def entry_layout(dentries):
+    def nleaves(d):
+        if d["class"] == "Collection":
+            return sum(nleaves(c) for c in d["children"])
+        return 0 if d["class"] == "Sensor" else 1
+
+    def has_sensor(d):
+        return any(c["class"] == "Sensor" or (c["class"] == "Collection" and has_sensor(c)) for c in d["children"])
+    return ",".join("C%d%s" % (nleaves(d), "+S" if has_sensor(d) else "") if d["class"] == "Collection" else "B"
+                    for d in dentries)
+
+
+def scale_excitation(d, k):
+    d = dict(d)
+    if "children" in d:
+        d["children"] = [scale_excitation(c, k) for c in d["children"]]
+    for a in ("polarization", "current", "moment"):
+        if a in d:
+            d[a] = (np.array(d[a], dtype=float) * k).tolist()
+    return d
+
+
+def sup_search(ctx, n):
+    rng = ctx.rng
+    for _ in range(n):
+        entries, desc = l2b.real_setup(rng, max_entries=4)
+        field = l2b.pick_field(rng)
+        sumup = rng.random() < 0.3
+        if rng.random() < 0.5:
+            npts = rng.randint(16, 24) if rng.random() < 0.1 else rng.randint(1, 3)
+            dobs = {"kind": "array", "points": [l2b.rvec(rng, -5, 5) for _ in range(npts)]}
+        else:
+            npix = rng.randint(1, 3)
+            sens = []
+            for _ in range(rng.randint(1, 2)):
+                s = magpy.Sensor(pixel=[l2b.rvec(rng, -0.5, 0.5) for _ in range(npix)],
+                                 handedness=rng.choice(["right", "left"]))
+                l2b.rnd_pose(rng, s, spread=5.0)
+                sens.append(s)
+            dobs = {"kind": "sensors", "sensors": [l2b.dump_obj(s) for s in sens], "agg": rng.choice(AGGS)}
+        dobs["how"] = rng.choice(["top", "top", "method"])
+        dentries = [l2b.dump_obj(e) for e in entries]
+        # twins (same geometry and pose, other excitation), duplicates (same object twice), and field ratios of
+        # 1e6 .. 1e12 between entries, in both orders
+        if rng.random() < 0.2:
+            dentries.insert(rng.randrange(len(dentries) + 1), scale_excitation(dentries[rng.randrange(len(dentries))], rng.uniform(-3, 3)))
+        if rng.random() < 0.25:
+            i = rng.randrange(len(dentries))
+            dentries[i] = scale_excitation(dentries[i], 10.0 ** rng.uniform(6, 12) * rng.choice([1, -1]))
+            ctx.bump("float-superposition:field-ratio>=1e6")
+        if rng.random() < 0.3:
+            k = rng.choice([1e-3, 1e-6, 1e3])
+            dobs["scale"] = k
+            dentries = [l2b.scale_dump(d, k) for d in dentries]
+            if dobs["kind"] == "array":
+                dobs["points"] = (np.array(dobs["points"]) * k).tolist()
+            else:
+                dobs["sensors"] = [l2b.scale_dump(d, k) for d in dobs["sensors"]]
+            ctx.bump("float-superposition:scale=%g" % k)
+        if rng.random() < 0.15 and len(dentries) >= 1:
+            j = rng.randrange(len(dentries))
+            dentries.append(dentries[j])
+            dobs["dups"] = [[len(dentries) - 1, j]]
+        ctx.case(("sup", field, sumup, tuple(desc), repr(dobs)[:200]), any("Collection" in k for k in desc))
+        ctx.bump("float-superposition:" + ("sumup" if sumup else "entries"))
+        if dobs.get("agg"):
+            ctx.bump("float-superposition:pixel_agg=" + dobs["agg"])
+        res = sup_fails(dentries, dobs, field, sumup)
+        if res is None:
+            continue
+        if sumup and sup_fails(dentries, dobs, field, False) is not None:
+            sumup = False
+        if "dups" not in dobs:
+            small = shrink_list(dentries, lambda ds: bool(ds) and sup_fails(ds, dobs, field, sumup) is not None, max_steps=30)
+            small = shrink_children(small, lambda ds: sup_fails(ds, dobs, field, sumup) is not None)
+        else:
+            small = dentries
+        res2 = sup_fails(small, dobs, field, sumup) or res
+        extra = (":pixel_agg=" + dobs["agg"]) if dobs.get("agg") and sup_fails(small, dict(dobs, agg=None), field, sumup) is None else ""
+        ctx.impl_fail(f"{res2[0]}/{entry_layout(small)}{extra}", res2[1] + " (real classes)",
+                      {"kind": "float-sup", "entries": small, "observers": dobs, "field": field, "sumup": sumup})
 
 
 def shrink_children(dentries, bad):
@@ -199,49 +300,6 @@ def shrink_children(dentries, bad):
     return cur
 
 
-def entry_layout(dentries):
-    def nleaves(d):
-        if d["class"] == "Collection":
-            return sum(nleaves(c) for c in d["children"])
-        return 0 if d["class"] == "Sensor" else 1
-    def has_sensor(d):
-        return any(c["class"] == "Sensor" or (c["class"] == "Collection" and has_sensor(c)) for c in d["children"])
-    return ",".join("C%d%s" % (nleaves(d), "+S" if has_sensor(d) else "") if d["class"] == "Collection" else "B"
-                    for d in dentries)
-
-
-def sup_search(ctx, n):
-    rng = ctx.rng
-    for _ in range(n):
-        entries, desc = l2b.real_setup(rng, max_entries=4)
-        field = rng.choice(["B", "H"])
-        sumup = rng.random() < 0.3
-        if rng.random() < 0.5:
-            dobs = {"kind": "array", "points": [l2b.rvec(rng, -5, 5) for _ in range(rng.randint(1, 3))]}
-        else:
-            npix = rng.randint(1, 2)
-            sens = []
-            for _ in range(rng.randint(1, 2)):
-                s = magpy.Sensor(pixel=[l2b.rvec(rng, -0.5, 0.5) for _ in range(npix)],
-                                 handedness=rng.choice(["right", "left"]))
-                l2b.rnd_pose(rng, s, spread=5.0)
-                sens.append(s)
-            dobs = {"kind": "sensors", "sensors": [l2b.dump_obj(s) for s in sens]}
-        dentries = [l2b.dump_obj(e) for e in entries]
-        ctx.case(("sup", field, sumup, tuple(desc), repr(dobs)[:200]), any("Collection" in k for k in desc))
-        ctx.bump("float-superposition:" + ("sumup" if sumup else "entries"))
-        res = sup_fails(dentries, dobs, field, sumup)
-        if res is None:
-            continue
-        if sumup and sup_fails(dentries, dobs, field, False) is not None:
-            sumup = False
-        small = shrink_list(dentries, lambda ds: bool(ds) and sup_fails(ds, dobs, field, sumup) is not None, max_steps=30)
-        small = shrink_children(small, lambda ds: sup_fails(ds, dobs, field, sumup) is not None)
-        res2 = sup_fails(small, dobs, field, sumup) or res
-        ctx.impl_fail(f"{res2[0]}/{entry_layout(small)}", res2[1] + " (real classes)",
-                      {"kind": "float-sup", "entries": small, "observers": dobs, "field": field, "sumup": sumup})
-
-
 # ------------------------------------------------------------------ one pixel exactly on a documented singular point
 def g_singular(rng):
     """a source with exact (dyadic) geometry, unit orientation, and a global point where its field is singular"""
@@ -259,7 +317,7 @@ def g_singular(rng):
 def sing_eval(dentries, sing_entry, pixels, field):
     """None or detail: every entry of the list call against ITS OWN single call; entries that do not contain the
     singular source must be finite and unaffected"""
-    f = magpy.getB if field == "B" else magpy.getH
+    f = l2b.field_fn(field)
 
     def sens():
         return magpy.Sensor(pixel=pixels)
@@ -289,7 +347,7 @@ def sing_search(ctx, n):
     for _ in range(n):
         sing, kind, pt = g_singular(rng)
         f0 = rng.choice(["B", "H"])
-        probe = (magpy.getB if f0 == "B" else magpy.getH)(sing, pt)
+        probe = l2b.field_fn(f0)(sing, pt)
         ctx.bump("singular:" + kind + (":non-finite" if not np.all(np.isfinite(probe)) else ":finite"))
         # >= 2 entries, one of them a collection with > 1 source; the singular source sits in one of them
         others, _d = l2b.real_setup(rng, max_entries=2)
@@ -368,7 +426,7 @@ EXC = {"Cuboid": "polarization", "Cylinder": "polarization", "CylinderSegment": 
 
 def lin_eval(d, pts, field, a, b, e1, e2, use_mag):
     """deviation of F(a e1 + b e2) from a F(e1) + b F(e2), relative to the scale of the terms"""
-    f = magpy.getB if field == "B" else magpy.getH
+    f = l2b.field_fn(field)
     attr = EXC[d["class"]]
     if use_mag and attr == "polarization":
         attr = "magnetization"
@@ -393,15 +451,69 @@ def lin_eval(d, pts, field, a, b, e1, e2, use_mag):
     return max(dev, float(np.abs(F12 - Fs).max() / scale))
 
 
+def lin_rounding_limited(dev, d, pts, field, a, b, e1, e2, use_mag):
+    """True when the deviation is within NOISE_FACTOR times what this very evaluation moves under rounding-level
+    changes of pose and observer (ill-conditioned CylinderSegment / Tetrahedron points reach 1e-9)"""
+    if not np.isfinite(dev):
+        return False
+    attr = EXC[d["class"]]
+    if use_mag and attr == "polarization":
+        attr = "magnetization"
+    o = l2b.load_obj(d)
+    e12 = a * np.array(e1, dtype=float) + b * np.array(e2, dtype=float)
+    setattr(o, attr, e12.tolist() if e12.ndim else float(e12))
+    try:
+        nf = l2b.noise_floor([l2b.dump_obj(o)], {"kind": "array", "points": pts,
+                                                 "scale": float(max(np.abs(np.array(pts)).max(), 1e-300)) / 4}, field)
+    except Exception:   # pylint: disable=broad-except
+        return False
+    return dev <= NOISE_FACTOR * nf
+
+
+SCALINGS = [1e-12, 1e-10, 1e-8, 1e-6, 1e-3, 1e3, 1e6, 1e9, -1e-9, -1.0, 0.0]
+
+
+def lin_battery(ctx):
+    """fixed battery, every run: for every class, B and H of (s * excitation) against s * (B, H of the excitation) for
+    very small, very large, negative and zero factors s -- 'all real scalings'; one generic and one axis-aligned
+    excitation, one observer inside and one outside the body"""
+    rng = ctx.rng
+    for kind in EXC:
+        s, _k = l2b.real_source(rng, kind)
+        l2b.rnd_pose(rng, s, maxlen=1)
+        d = l2b.dump_obj(s)
+        loc = l2b.inside_point(rng, s, kind)
+        pts = [l2b.rvec(rng, -4, 4)] + ([(s._orientation[0].apply(loc) + s._position[0]).tolist()] if loc is not None else [])
+        vec = EXC[kind] != "current"
+        for e in ([l2b.rvec(rng, -1, 1), [0.0, 0.0, rng.uniform(0.2, 1)], [rng.uniform(0.2, 1), 0.0, 0.0]] if vec
+                  else [rng.uniform(0.5, 2)]):
+            for field in ("B", "H"):
+                for a in SCALINGS:
+                    ctx.bump("linear-battery:" + kind)
+                    try:
+                        dev = lin_eval(d, pts, field, a, 0.0, e, e, False)
+                    except Exception as ex:   # pylint: disable=broad-except
+                        dev, what = float("inf"), f"raised {type(ex).__name__}: {ex}"
+                    else:
+                        what = (f"{field}(s*e) deviates by {dev:.2e} (relative) from s*{field}(e) for s = {a:g} and the "
+                                f"{EXC[kind]} of {kind}")
+                    if dev > LIN_TOL and not lin_rounding_limited(dev, d, pts, field, a, 0.0, e, e, False):
+                        mag = "tiny" if 0 < abs(a) < 1e-5 else "huge" if abs(a) > 1e5 else "zero" if a == 0 else "moderate"
+                        ctx.impl_fail(f"linear/{kind}:{field}:scaling-{mag}", what,
+                                      {"kind": "float-lin", "source": d, "points": pts, "field": field, "a": a, "b": 0.0,
+                                       "e1": e, "e2": e, "use_mag": False})
+
+
 def lin_search(ctx, n_per_class):
     rng = ctx.rng
     worst = {}
+    lin_battery(ctx)
     for kind in EXC:
         for _ in range(n_per_class):
             s, _k = l2b.real_source(rng, kind)
             l2b.rnd_pose(rng, s, maxlen=2)
             d = l2b.dump_obj(s)
-            field = rng.choice(["B", "H"])
+            field = l2b.pick_field(rng)
             use_mag = rng.random() < 0.3
             # observers anywhere, also inside the magnet (placed through the pose at path index 0)
             pts = []
@@ -413,8 +525,13 @@ def lin_search(ctx, n_per_class):
                     pts.append(l2b.rvec(rng, -4, 4))
             vec = EXC[kind] != "current"
             scale = 1e6 if use_mag and EXC[kind] == "polarization" else 1.0
-            e1 = [x * scale for x in l2b.rvec(rng, -1, 1)] if vec else rng.uniform(-3, 3)
-            e2 = [x * scale for x in l2b.rvec(rng, -1, 1)] if vec else rng.uniform(-3, 3)
+            # generic and exactly axis-aligned excitations, also opposite ones (a e1 + b e2 can vanish)
+            e1 = [x * scale for x in l2b.exc_vec(rng)] if vec else l2b.exc_cur(rng)
+            e2 = [x * scale for x in l2b.exc_vec(rng)] if vec else l2b.exc_cur(rng)
+            if rng.random() < 0.3:         # absolute length scale
+                k = rng.choice([1e-3, 1e-6, 1e3])
+                d = l2b.scale_dump(d, k)
+                pts = (np.array(pts) * k).tolist()
             a, b = rng.uniform(-3, 3), rng.uniform(-3, 3)
             if rng.random() < 0.35:  # pure scaling by any real factor, also very small and very large ones
                 b = 0.0
@@ -429,6 +546,9 @@ def lin_search(ctx, n_per_class):
             ctx.case(("lin", kind, field, use_mag, repr(pts), a, b), True)
             ctx.bump("float-linear:" + kind)
             worst[kind] = max(worst.get(kind, 0.0), dev)
+            if dev > LIN_TOL and lin_rounding_limited(dev, d, pts, field, a, b, e1, e2, use_mag):
+                ctx.bump("float-linear:rounding-limited")
+                continue
             if dev > LIN_TOL:
                 ctx.impl_fail(f"linear/{kind}:{field}",
                               f"{field}(a*e1+b*e2) deviates by {dev:.2e} (relative) from a*{field}(e1)+b*{field}(e2) "
@@ -505,7 +625,9 @@ def replay(ctx, obj):
         res = None if r is None else f"field op #{r[0]}: {r[2]}"
     elif kind == "float-lin":
         dev = lin_eval(rp["source"], rp["points"], rp["field"], rp["a"], rp["b"], rp["e1"], rp["e2"], rp["use_mag"])
-        res = None if dev <= LIN_TOL else f"relative deviation {dev:.2e}"
+        ok = dev <= LIN_TOL or lin_rounding_limited(dev, rp["source"], rp["points"], rp["field"], rp["a"], rp["b"],
+                                                     rp["e1"], rp["e2"], rp["use_mag"])
+        res = None if ok else f"relative deviation {dev:.2e}"
     else:
         print(json.dumps(obj, indent=1)[:3000])
         return 0
